@@ -179,15 +179,15 @@ def run(prop, tier, seed, replay=None):
     fast = bool(os.environ.get("VERIF_X12_DIRECTED"))   # binding demonstration: simulated + directed behaviours only, no exhaustive model runs
     if fast:
         gen_fams = []
-    for fam in ([] if fast else FAMILIES):
-        fut[fam, "check"] = pool.submit(tlc_ok, "UserFlow.%s.%s.cfg" % (fam, tier_cfg), "prescriptive", timeout=1500, workers=2)
+    for fam in ([] if fast else ["tenants", "users", "verifiers"]):   # the largest first
+        fut[fam, "check"] = pool.submit(tlc_ok, "UserFlow.%s.%s.cfg" % (fam, tier_cfg), "prescriptive", timeout=1500, workers=(3 if fam == "tenants" and not quick else 2))
     for fam in gen_fams:
-        fut[fam, "gen"] = pool.submit(tlc_ok, "UserFlow.%s.gen.cfg" % fam, "generation", timeout=600, workers=2)
+        fut[fam, "gen"] = pool.submit(tlc_ok, "UserFlow.%s.gen.cfg" % fam, "generation", timeout=600, workers=(2 if quick else 1))
     for fam in FAMILIES:
         fut[fam, "sim"] = pool.submit(vlib.tlc, "MCUserFlow", "UserFlow.%s.sim.cfg" % fam, workers=1, simulate="num=%d" % n_sim, depth=16, seed=seed, timeout=300)
     if not quick:
         fut["one", "check"] = pool.submit(tlc_ok, "UserFlow.one.quick.cfg", "prescriptive, one flow, 3 attacker steps, 2 ticks", timeout=900, workers=2)
-        fut["cover"] = pool.submit(tlc_ok, "UserFlow.tenants.quick.cfg", "coverage", timeout=1200, coverage=True, workers=2)
+        fut["cover"] = pool.submit(tlc_ok, "UserFlow.tenants.quick.cfg", "coverage", timeout=1200, coverage=True, workers=1)
 
     by_id, flows_by_fam, all_scripts = {}, {}, []
     for fam in FAMILIES:
